@@ -30,6 +30,7 @@
 #define CX_DEAD		4
 #define CX_POPEN	5	/* popen object id + 1 */
 #define CX_REAPED_DEAD	6
+#define CX_DEATH_EPOCH	7
 
 #define WX_NEXT		0
 #define WX_OPT		1
@@ -43,10 +44,10 @@
 #define PX_GRACE	4
 #define PX_ALIVE_AT_CLOSE 5
 
-#define NRLOG 24
-static struct { int n; struct { uint64_t seq; int status; } e[NRLOG]; } rlog[MAXOBJ];
+#define NRLOG 96
+static struct { int n, saturated; struct { uint64_t seq; int status; } e[NRLOG]; } rlog[MAXOBJ];
 static int pending_spawn[SIMK_MAXT];	/* child obj + 1 being spawned by this sim thread */
-static int wait_full_count;
+static int wait_full_count, wait_epoch;
 static int expect_kill_child[SIMK_MAXT];	/* child obj + 1 the current harness kill is meant for */
 
 static int status_dead(int st) { return WIFEXITED(st) || WIFSIGNALED(st); }
@@ -80,6 +81,16 @@ static int child_by_serial(int serial)
 	return -1;
 }
 
+static int spawning_child[SIMK_MAXT];	/* child obj + 1 whose library-side spawn call is in progress */
+static int pending_spawn_for(int c)
+{
+	int i;
+	for (i = 0; i < SIMK_MAXT; i++)
+		if (spawning_child[i] == c + 1)
+			return 1;
+	return 0;
+}
+
 static void obs_child_event(pid_t pid, int serial, int state, int status)
 {
 	int c;
@@ -99,7 +110,10 @@ static void obs_child_event(pid_t pid, int serial, int state, int status)
 		return;
 	if (state == 3) {
 		RO[c].xi[CX_DEAD] = 1;
-		RO[c].xi[CX_DEATHOK] = wait_full_count > 0 || RO[c].xi[CX_HOW] == 2;
+		/* somebody is certainly listening for SIGCHLD: a fully registered interest exists, or the
+		 * library itself is in the middle of forking this child for one */
+		RO[c].xi[CX_DEATHOK] = wait_full_count > 0 || pending_spawn_for(c);
+		RO[c].xi[CX_DEATH_EPOCH] = wait_epoch;
 	}
 }
 
@@ -114,6 +128,8 @@ static void obs_reap(int tid, pid_t pid, int status)
 		rlog[c].e[rlog[c].n].seq = SEQ;
 		rlog[c].e[rlog[c].n].status = status;
 		rlog[c].n++;
+	} else {
+		rlog[c].saturated = 1;	/* history too long to keep: routing of this child is no longer checked */
 	}
 	if (status_dead(status)) {
 		RO[c].xi[CX_REAPED_DEAD] = 1;
@@ -201,7 +217,9 @@ static int wait_reg(struct rthr *th, int id)
 		o->xi[WX_NEXT] = 0;
 		o->xi[WX_OPT] = 0;
 		rlog[c].n = 0;
+		spawning_child[th->sim] = c + 1;
 		ret = iv_wait_interest_register_spawn(w, child_fn, NULL);
+		spawning_child[th->sim] = 0;
 		pending_spawn[th->sim] = 0;
 		if (ret < 0) {
 			RO[c].xi[CX_HOW] = 0;
@@ -227,7 +245,8 @@ static int wait_unreg(struct rthr *th, int id)
 {
 	struct robj *o = &RO[id];
 	(void)th;
-	wait_full_count--;
+	if (--wait_full_count == 0)
+		wait_epoch++;
 	o->registered = 0;
 	o->xi[WX_INPROG] = 2;
 	iv_wait_interest_unregister(o->mem);
@@ -245,6 +264,8 @@ static void wait_cb(struct rthr *th, int id, int status)
 
 	(void)th;
 	PROBE[PR_WAIT_CB]++;
+	if (rlog[c].saturated)
+		return;
 	if (o->xi[WX_DEADDELIV])
 		viol("C11.after_death", "wait obj %d: handler invoked with status 0x%x after the terminating status had been delivered", id, status);
 	while (j < rlog[c].n && rlog[c].e[j].status != status && j < o->xi[WX_OPT])
@@ -287,7 +308,9 @@ static int popen_reg(struct rthr *th, int id)
 	RO[c].xi[CX_HOW] = 2;
 	RO[c].xi[CX_POPEN] = id + 1;
 	rlog[c].n = 0;
+	spawning_child[th->sim] = c + 1;
 	fd = iv_popen_request_submit(req);
+	spawning_child[th->sim] = 0;
 	pending_spawn[th->sim] = 0;
 	if (fd < 0) {
 		RO[c].xi[CX_HOW] = 0;
@@ -487,6 +510,7 @@ static int item_submit(struct rthr *th, int id, int continuation)
 	++SEQ;
 	simk_log(101, OP_SUBMIT, id);
 	if (continuation) {
+		hb_acquire(o);	/* the application hands the item from its completion to the worker */
 		RO[pool].xi[QX_CONT]++;
 		iv_work_pool_submit_continuation(RO[pool].mem, it);
 		RO[pool].xi[QX_CONT]--;
@@ -561,6 +585,7 @@ static void item_done_cb(struct rthr *th, int id)
 	else if (o->xi[IX_STATE] != 3)
 		viol("C12.order", "work item obj %d: completion invoked before its work function returned (state %" PRId64 ")", id, o->xi[IX_STATE]);
 	o->xi[IX_STATE] = 4;
+	hb_release(o);
 	if (pool >= 0)
 		RO[pool].xi[QX_OUTSTANDING]--;
 	if (PL->obj[id].p[3])
@@ -861,7 +886,9 @@ void ext2_run_begin(void)
 	memset(worker_pool, 0, sizeof(worker_pool));
 	memset(worker_state, 0, sizeof(worker_state));
 	memset(ivthread_of, 0, sizeof(ivthread_of));
+	memset(spawning_child, 0, sizeof(spawning_child));
 	wait_full_count = 0;
+	wait_epoch = 0;
 	{
 		int i;
 		for (i = 0; i < PL->nobj; i++)
@@ -884,13 +911,14 @@ void ext2_obligations(void)
 			if (!o->registered || !RT[po->owner].in_main)
 				break;
 			from = o->xi[WX_NEXT] > o->xi[WX_OPT] ? o->xi[WX_NEXT] : o->xi[WX_OPT];
-			if (from < rlog[c].n && !o->xi[WX_DEADDELIV])
+			if (from < rlog[c].n && !o->xi[WX_DEADDELIV] && !rlog[c].saturated)
 				viol("C11.lost", "quiescence: wait obj %d (child obj %d pid %d): %d status change(s) were reaped for its child but only %" PRId64 " reached the handler (next undelivered status 0x%x)",
 				     i, c, (int)RO[c].xi[CX_PID], rlog[c].n, o->xi[WX_NEXT], rlog[c].e[from].status);
 			break;
 		}
 		case K_CHILD:
-			if (o->xi[CX_HOW] && o->xi[CX_DEAD] && !o->xi[CX_REAPED_DEAD] && o->xi[CX_DEATHOK] && wait_full_count > 0 && !o->xi[CX_POPEN])
+			if (o->xi[CX_HOW] && o->xi[CX_DEAD] && !o->xi[CX_REAPED_DEAD] && o->xi[CX_DEATHOK] && wait_full_count > 0 &&
+			    o->xi[CX_DEATH_EPOCH] == wait_epoch && !o->xi[CX_POPEN])
 				viol("C11.zombies", "quiescence: child obj %d (pid %d) died while wait interests were registered and is still a zombie", i, (int)o->xi[CX_PID]);
 			if (o->xi[CX_POPEN] && o->xi[CX_DEAD] && !o->xi[CX_REAPED_DEAD])
 				viol("C19.reaped", "quiescence: popen child obj %d (pid %d) ended but was never reaped", i, (int)o->xi[CX_PID]);
